@@ -393,6 +393,11 @@ type sim struct {
 	finals []simFinal
 	// votes index: "h/r/type/bid" -> signer set ; all votes ever put in the pool (incl. inside lists)
 	votes map[string]map[int]bool
+	// votes a correct node signed and kept in its own round WAL although the send was withdrawn by a
+	// crash point inside the handler: same key -> signer set. Such a vote exists (the restarted
+	// node replays it from its log) but only its signer can know it, so the certificate oracle
+	// adds it only when the signer itself finalizes.
+	walOnlyVotes map[string]map[int]bool
 	// what correct validators signed: "v/type/h/r" -> signed bytes (hex)
 	signed map[string]string
 	// blocks seen in proposals: psid hash -> (psid, parts, block id)
@@ -408,6 +413,7 @@ type sim struct {
 	restartsAfterTorn int
 	equivDelivered int
 	insideCrashes  int
+	walOnlyKept    int
 }
 
 type simBlock struct {
@@ -457,7 +463,7 @@ func newSim(n int, byz map[int]bool, keyBase int) (*sim, error) {
 	s := &sim{
 		n: n, f: len(byz), addrIdx: map[string]int{}, deliv: map[[2]int]bool{},
 		clock: &simClock{v: 1_700_000_000_000_000},
-		votes: map[string]map[int]bool{}, signed: map[string]string{}, blocks: map[string]*simBlock{},
+		votes: map[string]map[int]bool{}, walOnlyVotes: map[string]map[int]bool{}, signed: map[string]string{}, blocks: map[string]*simBlock{},
 	}
 	wallets := make([]module.Wallet, n)
 	for i := range wallets {
@@ -609,6 +615,16 @@ func (n *simNode) syncedWALContains(rec []byte) bool {
 	return false
 }
 
+// walContains reports whether node n's round WAL files, as they are on disk now, contain rec.
+func (n *simNode) walContains(rec []byte) bool {
+	for _, f := range walFiles(path.Join(n.walDir, "round")) {
+		if b, err := os.ReadFile(f); err == nil && bytes.Contains(b, rec) {
+			return true
+		}
+	}
+	return false
+}
+
 func walIdx(f, id string) uint64 {
 	v, _ := strconv.ParseUint(f[len(id)+1:], 10, 64)
 	return v
@@ -715,14 +731,24 @@ func (s *sim) onFinalize(n *simNode, h int64, id []byte) {
 	}
 	// C01-b certificate: > 2n/3 distinct validators precommitted exactly this block in one round
 	best := 0
-	for k, set := range s.votes {
-		pre := fmt.Sprintf("%d/", h)
-		suf := fmt.Sprintf("/%d/%s", consensus.VoteTypePrecommit, hx)
+	pre := fmt.Sprintf("%d/", h)
+	suf := fmt.Sprintf("/%d/%s", consensus.VoteTypePrecommit, hx)
+	count := func(k string) {
 		if strings.HasPrefix(k, pre) && strings.HasSuffix(k, suf) {
-			if len(set) > best {
-				best = len(set)
+			c := len(s.votes[k])
+			if s.walOnlyVotes[k][n.idx] && !s.votes[k][n.idx] {
+				c++ // the finalizing node's own precommit, durable in its log but never sent
+			}
+			if c > best {
+				best = c
 			}
 		}
+	}
+	for k := range s.votes {
+		count(k)
+	}
+	for k := range s.walOnlyVotes {
+		count(k)
 	}
 	if 3*best <= 2*s.n {
 		s.violations = append(s.violations, fmt.Sprintf(
@@ -1074,6 +1100,29 @@ func (s *sim) crashInside(j int, pickK func(sends int) int, pick func(wal string
 		if l.size != h.size || cut < int64(len(data)) {
 			desc = append(desc, fmt.Sprintf("%s:%d/%d..%d%s", wid, cut, l.size, h.size, map[bool]string{true: "", false: "(torn)"}[onBoundary]))
 		}
+	}
+	// withdrawn votes whose record survived the cut still exist in this node's log
+	kept := 0
+	s.mu.Lock()
+	for _, sn := range snaps[k+1:] {
+		m := s.pool[sn.poolIdx]
+		if m.kind != "vote" || m.byz || m.signer != j {
+			continue
+		}
+		rec := append([]byte{byte(m.pi.Uint16() >> 8), byte(m.pi.Uint16())}, m.bs...)
+		if n.walContains(rec) {
+			vk := simVoteKey(m.h, m.r, m.vt, m.bid)
+			if s.walOnlyVotes[vk] == nil {
+				s.walOnlyVotes[vk] = map[int]bool{}
+			}
+			s.walOnlyVotes[vk][j] = true
+			kept++
+		}
+	}
+	s.mu.Unlock()
+	if kept > 0 {
+		s.walOnlyKept += kept
+		desc = append(desc, fmt.Sprintf("unsentVotesKeptInWAL:%d", kept))
 	}
 	s.insideCrashes++
 	s.logf("crashInside(n%d after send %d of %d; %s)", j, k, len(snaps)-1, strings.Join(desc, " "))
